@@ -38,7 +38,7 @@ Number(bs) == NumBlocks(bs, 1)
 -----------------------------------------------------------------------------
 (* expressions *)
 Consts == { N(0), N(3), N(35), N(10), N(100), Lit(Fin(32)), Lit(Fin(224)), N(-5), Lit(NZero), Lit(PInf), Lit(NaN) }
-StrConsts == { S("hi"), S("a b!"), S("l1\nl2"), S(""), S("(x") }
+StrConsts == { S("hi"), S("a b!"), S("l1\nl2"), S(""), S("(x"), S("end\n"), S("\n"), S("a\\b"), S("t\tb") }
 NonConst == { Var("x"), Pro, Idx(Var("x"), N(0)), Call("f", <<N(1)>>), RollE(Var("x")), Lit(Bool(TRUE)), Lit(Null), Lit(Myst) }
 PLits == { PLit(<<PW("abc"), PW("de")>>), PLit(<<PW("a"), PD, PW("ab"), PS("'s")>>) }
 Atoms == Consts \cup StrConsts \cup NonConst
@@ -80,7 +80,7 @@ MPool == { Say(Var("x")), Say(Var("y")), Put(Bin("plus", Var("x"), <<Var("x")>>)
            Say(Bin("plus", Var("y"), <<Var("y"), Var("y"), Var("x")>>)), Put(N(5), "x"), Say(Pro), STurn(0, "up", Var("x")),
            SReturn(0, Var("y")), Say(Call("y", <<Call("y", <<Var("y")>>)>>)),
            SMut(0, "cut", Var("x"), Var("y"), ENone), SMut(0, "join", Var("y"), ENone, Var("x")), SMut(0, "cast", Var("x"), Var("y"), Var("z")),
-           SAssign(0, Idx(Var("x"), Var("x")), "none", <<N(5)>>), SRoll(0, Var("x"), Var("y")) }
+           SAssign(0, Idx(Var("x"), Var("x")), "none", <<N(5)>>), SRoll(0, Var("x"), Var("y")), SRock(0, Var("y"), <<>>) }
 MProgs(z) == { <<a, b>> : a, b \in MPool } \cup (IF Tier = "quick" THEN {} ELSE { <<a, b, d>> : a, b, d \in MPool })
 
 (* many diagnostics, every line reported by both passes: the order of the report does not depend on its length *)
